@@ -348,11 +348,13 @@ Definition wf_op (o : op) : Prop :=
   match o with
   | OGet _ k | OExists _ k | OPut _ k _ | ODelete _ k | ORawPut k _ => wf_key k
   | OBatch _ b => Forall wf_brec b
+  | OWAdd _ r => wf_brec r
   | _ => True
   end.
 Definition wf_handle (h : option key) : Prop := match h with Some p => wf_key p | None => True end.
+Definition wf_writer (w : writer) : Prop := wf_handle (w_prefix w) /\ Forall wf_brec (w_pending w).
 Definition good (st : state) : Prop :=
-  wf_store (raw st) /\ sorted (raw st) /\ Forall wf_handle (handles st).
+  wf_store (raw st) /\ sorted (raw st) /\ Forall wf_handle (handles st) /\ Forall wf_writer (writers st).
 
 Lemma wf_apply_batch : forall b s, Forall wf_brec b -> wf_store s -> wf_store (apply_batch b s).
 Proof.
@@ -376,6 +378,16 @@ Proof.
   induction hs; destruct h; simpl; intros; auto; inversion H; subst; constructor; simpl; auto.
 Qed.
 
+Lemma Forall_set_nth : forall {A} (P : A -> Prop) n x l, Forall P l -> P x -> Forall P (set_nth n x l).
+Proof.
+  induction n; destruct l; simpl; intros; auto; inversion H; subst; constructor; auto.
+Qed.
+
+Lemma wf_writer_nth : forall ws w, Forall wf_writer ws -> wf_writer (nth w ws dead_writer).
+Proof.
+  induction ws; destruct w; simpl; intros; try (split; simpl; auto; fail); inversion H; subst; auto.
+Qed.
+
 Lemma sdel_all_sorted : forall ks s, sorted s -> sorted (sdel_all ks s).
 Proof. intros. rewrite sdel_all_filter. apply sorted_filter. auto. Qed.
 Lemma sdel_all_wf : forall ks s, wf_store s -> wf_store (sdel_all ks s).
@@ -384,7 +396,7 @@ Proof. intros. rewrite sdel_all_filter. apply wf_filter. auto. Qed.
 Opaque batch_remove.
 Lemma step_good : forall st o, good st -> wf_op o -> good (fst (step st o)).
 Proof.
-  intros st o [W [S HS]] WO. unfold good.
+  intros st o [W [S [HS HW]]] WO. unfold good.
   assert (WH : forall h, wf_handle (handle st h)) by (intros; apply wf_handle_nth; auto).
   destruct o; unfold step; simpl; auto.
   - (* put *) specialize (WH h). unfold p_put, pkey. destruct (handle st h); simpl; auto. destruct k; simpl; auto.
@@ -403,10 +415,27 @@ Proof.
     destruct (Z.eq_dec limit 0) as [->|NZ].
     + rewrite batch_remove_zero. simpl. auto.
     + rewrite batch_remove_exact; auto. simpl. repeat split; auto. apply wf_filter; auto. apply sorted_filter; auto.
+  - (* writer open *) repeat split; auto. apply Forall_app. split; auto. constructor; auto. split; simpl; auto.
+  - (* writer add *)
+    assert (WW := wf_writer_nth (writers st) w HW). destruct WW as [WP WQ].
+    destruct (w_prefix (nth w (writers st) dead_writer)) as [p|] eqn:EP; simpl; auto.
+    destruct (w_live (nth w (writers st) dead_writer)); simpl; auto.
+    assert (WPend : Forall wf_brec (w_pending (nth w (writers st) dead_writer) ++ [r])).
+    { apply Forall_app. split; auto. }
+    destruct (Nat.leb _ _); simpl.
+    + repeat split; auto. apply wf_apply_batch; auto. apply wf_pbatch; auto. apply sorted_apply_batch; auto.
+      apply Forall_set_nth; auto. split; simpl; auto.
+    + repeat split; auto. apply Forall_set_nth; auto. split; simpl; auto.
+  - (* writer done *)
+    assert (WW := wf_writer_nth (writers st) w HW). destruct WW as [WP WQ].
+    destruct (w_prefix (nth w (writers st) dead_writer)) as [p|] eqn:EP; simpl; auto.
+    destruct (w_live (nth w (writers st) dead_writer)); simpl; auto.
+    repeat split; auto. apply wf_apply_batch; auto. apply wf_pbatch; auto. apply sorted_apply_batch; auto.
+    apply Forall_set_nth; auto. split; simpl; auto.
 Qed.
 
 Definition run (st : state) (ops : list op) : state := fold_left (fun st o => fst (step st o)) ops st.
-Definition init (prefixes : list key) : state := mkState [] (map Some prefixes).
+Definition init (prefixes : list key) : state := mkState [] (map Some prefixes) [].
 
 Lemma run_good : forall ops st, good st -> Forall wf_op ops -> good (run st ops).
 Proof.
@@ -421,7 +450,7 @@ Qed.
 
 Lemma no_fuel : forall st o, good st -> snd (step st o) <> RFuel.
 Proof.
-  intros st o [W [S HS]]. destruct o; unfold step; simpl; try discriminate.
+  intros st o [W [S [HS HW]]]. destruct o; unfold step; simpl; try discriminate.
   - unfold p_get. destruct (pkey _ _); discriminate.
   - unfold p_exists. destruct (pkey _ _); discriminate.
   - unfold p_put. destruct (pkey _ _); discriminate.
@@ -433,4 +462,41 @@ Proof.
     destruct (Z.eq_dec limit 0) as [->|NZ].
     + rewrite batch_remove_zero. discriminate.
     + rewrite batch_remove_exact; auto. discriminate.
+  - destruct (w_prefix _); try discriminate. destruct (w_live _); try discriminate. destruct (Nat.leb _ _); discriminate.
+  - destruct (w_prefix _); try discriminate. destruct (w_live _); discriminate.
+Qed.
+
+(* ------------------------------------------------------------------ writers (BatchFunc) keep their captured prefix *)
+
+Definition writer_of (o : op) : option nat := match o with OWAdd w _ | OWDone w => Some w | _ => None end.
+
+Lemma writer_outside_unchanged : forall st o w p, writer_of o = Some w ->
+  w_prefix (nth w (writers st) dead_writer) = Some p ->
+  filter (outside p) (raw (fst (step st o))) = filter (outside p) (raw st).
+Proof.
+  intros st o w p T H. destruct o; simpl in T; inversion T; subst; unfold step; simpl; rewrite H.
+  - destruct (w_live _); simpl; auto. destruct (Nat.leb _ _); simpl; auto.
+    unfold outside. apply apply_batch_filter_other. apply pbatch_keys.
+  - destruct (w_live _); simpl; auto. unfold outside. apply apply_batch_filter_other. apply pbatch_keys.
+Qed.
+
+(* the prefix of a writer never changes, whatever happens to the handles (Close) or the other writers *)
+Lemma nth_set_nth_prefix : forall ws w w' wr, w_prefix wr = w_prefix (nth w' ws dead_writer) ->
+  w_prefix (nth w (set_nth w' wr ws) dead_writer) = w_prefix (nth w ws dead_writer).
+Proof.
+  induction ws; intros; simpl.
+  - destruct w'; simpl; auto.
+  - destruct w'; destruct w; simpl in *; auto.
+Qed.
+
+Lemma writer_prefix_stable : forall st o w, (w < List.length (writers st))%nat ->
+  w_prefix (nth w (writers (fst (step st o))) dead_writer) = w_prefix (nth w (writers st) dead_writer).
+Proof.
+  intros st o w L. destruct o; unfold step; simpl; auto.
+  - match goal with |- context [match ?x with Some _ => _ | None => _ end] => destruct x as [[s' n]|] end; auto.
+  - rewrite app_nth1; auto.
+  - destruct (w_prefix (nth w0 (writers st) dead_writer)) eqn:E; simpl; auto. destruct (w_live _); simpl; auto.
+    destruct (Nat.leb _ _); simpl; apply nth_set_nth_prefix; simpl; auto.
+  - destruct (w_prefix (nth w0 (writers st) dead_writer)) eqn:E; simpl; auto. destruct (w_live _); simpl; auto.
+    apply nth_set_nth_prefix; simpl; auto.
 Qed.
